@@ -171,6 +171,7 @@ type Session struct {
 	Name  string
 
 	mu     sync.Mutex
+	op     sync.Mutex // serialises operations together with their log entries
 	calls  map[string]int
 	faults []SessFault
 }
@@ -213,6 +214,11 @@ func (s *Session) SavePacket(d session.Direction, p packet.Generic) error {
 		s.Log.Add(s.Name, "sess:save-error:"+dirName(d), p, "")
 		return ErrSession
 	}
+	// the log entry is made atomically with the change it reports: a reader
+	// (AllPackets during the replay of a resumed session) cannot see the packet
+	// before "sess:save" is in the log
+	s.op.Lock()
+	defer s.op.Unlock()
 	err := s.Inner.SavePacket(d, p)
 	s.Log.Add(s.Name, "sess:save:"+dirName(d), p, "")
 	return err
@@ -222,6 +228,8 @@ func (s *Session) LookupPacket(d session.Direction, id packet.ID) (packet.Generi
 	if s.hit("LookupPacket") {
 		return nil, ErrSession
 	}
+	s.op.Lock()
+	defer s.op.Unlock()
 	return s.Inner.LookupPacket(d, id)
 }
 
@@ -230,6 +238,8 @@ func (s *Session) DeletePacket(d session.Direction, id packet.ID) error {
 		s.Log.Add(s.Name, "sess:delete-error:"+dirName(d), nil, fmt.Sprint(id))
 		return ErrSession
 	}
+	s.op.Lock()
+	defer s.op.Unlock()
 	err := s.Inner.DeletePacket(d, id)
 	s.Log.Add(s.Name, "sess:delete:"+dirName(d), nil, fmt.Sprint(id))
 	return err
@@ -239,6 +249,8 @@ func (s *Session) AllPackets(d session.Direction) ([]packet.Generic, error) {
 	if s.hit("AllPackets") {
 		return nil, ErrSession
 	}
+	s.op.Lock()
+	defer s.op.Unlock()
 	return s.Inner.AllPackets(d)
 }
 
@@ -246,6 +258,8 @@ func (s *Session) Reset() error {
 	if s.hit("Reset") {
 		return ErrSession
 	}
+	s.op.Lock()
+	defer s.op.Unlock()
 	s.Log.Add(s.Name, "sess:reset", nil, "")
 	return s.Inner.Reset()
 }
